@@ -17,6 +17,8 @@
                         there (hypothesis: both nodes of an unphased individual have a parent
                         wherever either has).  Without that hypothesis the statement is false of
                         the model (and of the code): [C24_blocks_missing_refuted]. *)
+(* (the former [C24_blocks_index_refuted], defect S1, was repaired in /repo by f3f9c6a and is
+   now the positive example [C24_more_individuals_than_edges]) *)
 From Coq Require Import List ZArith Bool.
 From TsdateV Require Import lib.Tables model.Sweep model.BlockSingletons proofs.TablesFacts proofs.CountThms.
 Import ListNotations.
@@ -84,15 +86,17 @@ Theorem C24_blocks_missing_refuted :
 Proof. exact C24_k8_refuted. Qed.
 Print Assumptions C24_blocks_missing_refuted.
 
-(** second finding (S1): [individuals_block] is sized by [num_edges]; a valid table with an
-    unphased individual whose id is >= num_edges makes the kernel index out of bounds
-    ([inl 2] = IndexError in Python, an unchecked access under numba) *)
-Theorem C24_blocks_index_refuted :
-  exists es unphased nind muts L insq remq,
-    valid_tablesb L es insq remq = true /\
-    block_singletons_list es unphased nind muts L insq remq = inl 2.
-Proof. exact C24_index_refuted. Qed.
-Print Assumptions C24_blocks_index_refuted.
+(** regression example for the repaired defect S1 (fix f3f9c6a: [individuals_block] is sized by
+    [num_individuals], no longer by [num_edges]): a valid table with more individuals than edges
+    and an unphased individual whose id is >= num_edges is an ordinary case; kernel model and
+    definition agree *)
+Example C24_more_individuals_than_edges :
+  valid_tablesb 10 [mkEdge 0 10 6 4; mkEdge 0 10 6 5] [0; 1]%nat [0; 1]%nat = true /\
+  block_singletons_list [mkEdge 0 10 6 4; mkEdge 0 10 6 5] [false; false; true] [0; 0; 1; 1; 2; 2; -1]
+                        [(3, 4%nat)] 10 [0; 1]%nat [0; 1]%nat = inr ([(1, Some 10)], [(0, 1)], [0]) /\
+  ref_blocks [mkEdge 0 10 6 4; mkEdge 0 10 6 5] (of_list (-1) [0; 0; 1; 1; 2; 2; -1]) [(3, 4%nat)] 10 2
+    = [(10, 1, [0; 1]%nat)].
+Proof. exact C24_more_individuals_than_edges_example. Qed.
 
 (** non-vacuity: a valid two-tree table with a mutation above a root and one on a node outside
     the topology; plain and size-biased model outputs, and the no-sweep references *)
